@@ -402,11 +402,18 @@ namespace nmtools::array
                 binary_case = BinaryCase::BROADCASTED_2D;
             }
 
-            if (binary_case == BinaryCase::INVALID) {
-                return false;
-            }
-
             const auto size = inp_index.size();
+
+            if (binary_case == BinaryCase::INVALID) {
+                // no packed enumeration for this combination of operand shapes (e.g. operands of different rank):
+                // evaluate element by element instead of leaving the output unwritten
+                for (size_t i=0; i<(size_t)size; i++) {
+                    auto inp_idx = inp_index[i];
+                    auto out_idx = out_index[i];
+                    apply_at(output,out_idx) = apply_at(view,inp_idx);
+                }
+                return true;
+            }
 
             if (binary_case == BinaryCase::SAME_SHAPE) {
                 for (size_t i=0; (i+N)<=size; i+=N) {
